@@ -48,13 +48,19 @@ CommandSignature ShellCommand::getSignature() const {
   if (!signatureData.empty()) {
     code = code.combine(signatureData);
   } else {
+    // The length of each list is part of the signature: otherwise a word that
+    // moves from the arguments to the environment or to the deps paths (or
+    // back) is not a change.
+    code = code.combine(unsigned(args.size()));
     for (const auto& arg: args) {
       code = code.combine(arg);
     }
+    code = code.combine(unsigned(env.size()));
     for (const auto& entry: env) {
       code = code.combine(entry.first);
       code = code.combine(entry.second);
     }
+    code = code.combine(unsigned(depsPaths.size()));
     for (const auto& path: depsPaths) {
       code = code.combine(path);
     }
